@@ -34,8 +34,36 @@ def render (f : Final) : String :=
   let trs := if tr.isEmpty then "-" else ",".intercalate tr
   s!"out={showOut f.out} trace={trs} handed={v.handed} leaked={v.leaked.length} dangling={v.dangling.length} foreign={v.foreign.length} dbl={v.dbl.length} unused={f.cfg.ans.length}"
 
+def parseNums (s : String) : Option (List Nat) :=
+  if s == "-" then some [] else (s.splitOn ",").mapM (fun t => t.toNat?)
+
+def insertSorted (n : Nat) : List Nat → List Nat
+  | [] => [n]
+  | a :: r => if n ≤ a then n :: a :: r else a :: insertSorted n r
+
+def sortNums (l : List Nat) : List Nat := l.foldr insertSorted []
+
+def showNums (l : List Nat) : String :=
+  if l.isEmpty then "-" else ",".intercalate (l.map toString)
+
+/-- the number-level view: the numbers the creations received, in order, and the table afterwards -/
+def renderK (r : Final × KTab) : String :=
+  s!"{render r.1} nums={showNums r.2.nums.reverse} fin={showNums (sortNums r.2.tab)}"
+
 def step (_ : Unit) (line : String) : Unit × String :=
   match Drv.words line with
+  | ["K", tbl, name, a, s, t, own] =>
+    -- caller's view against a kernel table: `t=` the foreign numbers open at entry, `own=` the numbers of the
+    -- slots the operation is given
+    let table := if tbl == "cur" then some (Ops.cur ++ Ops.knownBad) else if tbl == "old" then some Ops.old else none
+    match table, field "a=" a, field "s=" s, field "t=" t, field "own=" own with
+    | some table, some a, some s, some t, some own =>
+      match Ops.find table name, parseAnsList a, parseBits s, parseNums t, parseNums own with
+      | some (owned, script), some ans, some steps, some tab, some ownN =>
+        if ownN.length != owned.length then ((), "bad-op")
+        else ((), renderK (execK tab (owned.zip ownN) script 100000 ⟨ans, steps, none⟩))
+      | _, _, _, _, _ => ((), "bad-op")
+    | _, _, _, _, _ => ((), "bad-op")
   | [tbl, name, a, s, ca, cs] =>
     let table := if tbl == "cur" then some (Ops.cur ++ Ops.knownBad) else if tbl == "old" then some Ops.old else none
     match table, field "a=" a, field "s=" s, field "ca=" ca, field "cs=" cs with
